@@ -1,4 +1,5 @@
 """Generic runner for proof + T-ops correspondence properties (DESIGN.md 4.2, 5)."""
+import subprocess
 import glob, hashlib, json, os, re, sys, time
 import vlib
 from vlib import log
@@ -77,7 +78,12 @@ def run(prop, components, tier, lean_targets=(), level_text="", assumptions=(), 
             for f in sorted(glob.glob(os.path.join(cdir, comp.name + comp.suffix + "-*.ops"))):
                 batches.append(("corpus:" + os.path.basename(f), open(f).read()))
             for ga in comp.gen_args(tier, seed):
-                p = vlib.run([drv, "-mode", "gen"] + ga, env=vlib.GOENV)
+                try:
+                    p = vlib.run([drv, "-mode", "gen"] + ga, env=vlib.GOENV, timeout=90 if tier == "quick" else 2400)
+                except subprocess.TimeoutExpired:
+                    # some generators drive the real code to enumerate its scheduling points: a hang there is a hang of the code
+                    st["broken"].append("generator of driver %s (%s) did not finish: the implementation hangs while its schedules are enumerated" % (comp.name, " ".join(ga)))
+                    continue
                 if p.returncode != 0:
                     st["broken"].append("generator of driver %s failed: %s" % (comp.name, p.stderr[-500:]))
                     continue
